@@ -140,7 +140,7 @@ theorem foAt_congr {w w' : World} (h : w'.filters = w.filters) (f : Nat) : foAt 
 
 theorem guard_congr {s1 s2 : St} (hss : s1.ss = s2.ss) (hi : s1.issued = s2.issued) (op : Op) :
     guard s1 op = guard s2 op := by
-  cases op <;> simp only [RelRefine.guard, relsExpr, tgtsExpr, hss, hi]
+  cases op <;> simp only [RelRefine.guard, tgtsExpr, hss, hi]
 
 theorem poolAfter_core {p q : Pool} (h : p.Core = q.Core) (op : Op) :
     (poolAfter p op).Core = (poolAfter q op).Core := by
